@@ -811,7 +811,13 @@ fn expect_base(base: Base, sc: &Sc, o: Ob) -> Expect {
                     match ref_b64(sc.value) {
                         B64::Valid(b) => match String::from_utf8(b) {
                             Ok(s) => Expect::must(vs(&s), "untyped:binary-decoded"),
-                            Err(_) => Expect::must_err("untyped:binary-not-utf8"),
+                            // Not text: the documentation pins the error only for String targets;
+                            // an untyped target may hold the bytes, and then exactly these.
+                            Err(e) => Expect::one_of(
+                                vec![Got::V(Val::Bytes(e.into_bytes()))],
+                                true,
+                                "untyped:binary-not-utf8",
+                            ),
                         },
                         B64::Invalid(_) => Expect::must_err("untyped:binary-invalid-base64"),
                         B64::Unspecified(_) => Expect::any("untyped:binary-unspecified-blank"),
